@@ -44,7 +44,7 @@ META = {
                     'does not have, so only "never blocks" (I1) and "heals" (I5) are asserted after them',
                     'after a crash a file holds the old content, the new content or an unloadable prefix (the '
                     'SimFS flushes what was written before the kill)'],
-    'probe_names': ['common_label_saved', 'crash_between_truncate_and_write', 'crash_mid_write', 'crash_in_readback', 'crash_in_render',
+    'probe_names': ['document_without_labels', 'common_label_saved', 'crash_between_truncate_and_write', 'crash_mid_write', 'crash_in_readback', 'crash_in_render',
                     'crash_before_paux', 'crash_after_save', 'loads_to_nondict', 'dict_without_renderer', 'edited_owner',
                     'healed_after_fault', 'cross_ref_resolved', 'other_block_preserved', 'xr_reader_used',
                     'corrupt_file_read', 'partial_restore_after_bad_entry', 'save_failed_run_continued', 'ioerr_open_r', 'ioerr_write', 'ioerr_open_w'],
@@ -158,7 +158,7 @@ def generate(seed, tier):
     docs = []
     for i in range(m):
         items = []
-        for k in range(r.randint(1, 4)):
+        for k in range(r.choice([0, 1, 1, 2, 2, 3, 3, 4, 4])):
             items.append([r.choice(['section', 'section', 'equation', 'section', 'equation', 'figure', 'item', 'emptysection', 'starsection']), k, 0])
         docs.append({'items': items, 'refs': [], 'next': len(items), 'fancy': r.random() < 0.4})
     if R('common').random() < 0.3:
@@ -512,7 +512,7 @@ class Sim(object):
         i = op['doc'] % self.m
         d = self.docs[i]
         how = op['how']
-        if how == 'drop' and len(d['items']) > 1:
+        if how == 'drop' and d['items']:          # (down to a document without any label: its saved block becomes empty)
             it = d['items'].pop(op['k'] % len(d['items']))
             for j in range(self.m):
                 self.docs[j]['refs'] = [x for x in self.docs[j]['refs'] if not (x[0] == i and x[1] == it[1])]
@@ -524,9 +524,11 @@ class Sim(object):
                     self.docs[j]['refs'].append([i, d['next']])
                     self.write_doc(j)
             d['next'] += 1
-        else:
+        elif d['items']:
             it = d['items'][op['k'] % len(d['items'])]
             it[2] += 1
+        if not d['items']:
+            self.info['document_without_labels'] = 1
         self.write_doc(i)
         self.log.append(['EDIT', i, how])
         self.info['edited_owner'] = 1
